@@ -89,6 +89,20 @@ func (s *SessionStore) Clear(rw http.ResponseWriter, req *http.Request) error {
 		}
 	}
 
+	// and withdraw them from this response: a session that is being cleared
+	// must not leave as a usable cookie next to its own deletion
+	if set := rw.Header()["Set-Cookie"]; len(set) > 0 {
+		kept := make([]string, 0, len(set))
+		for _, line := range set {
+			c := (&http.Response{Header: http.Header{"Set-Cookie": {line}}}).Cookies()
+			if len(c) == 1 && c[0].MaxAge >= 0 && s.isSessionCookieName(c[0].Name) {
+				continue
+			}
+			kept = append(kept, line)
+		}
+		rw.Header()["Set-Cookie"] = kept
+	}
+
 	return nil
 }
 
